@@ -521,7 +521,17 @@ def build_const(u, path, log):
     src = Source.get(u.files[alias])
     it = src.find_item(("const", "static"), name)
     toks = [t for t in it.toks[it.start:it.end] if t.kind != "doc"]
-    return rl.text_of(toks) + "\n"
+    text = rl.text_of(toks)
+    if it.kind == "static":
+        # R12: Verus wants an immutable static as `exec static N: T ensures N == E { E }`; the type T and the
+        # initialiser E are the extracted tokens, so a changed value in /repo changes the verified text.
+        m = re.match(r"\s*(pub(?:\s*\([^)]*\))?\s+)?static\s+(?!mut\b)(\w+)\s*:\s*([^=]+?)\s*=\s*(.*?)\s*;\s*$", text, re.S)
+        if not m:
+            raise Undecided("static %s: not of the form `static NAME: T = EXPR;`" % path)
+        vis, nm, ty, init = m.group(1) or "", m.group(2), m.group(3), m.group(4)
+        log.append({"rule": "R12", "item": path, "type": ty, "init": init})
+        return "%sexec static %s: %s ensures %s == %s { %s }\n" % (vis, nm, ty, nm, init, init)
+    return text + "\n"
 
 
 HEADER = """#![allow(unused_imports, unused_variables, unused_mut, dead_code, non_snake_case, unused_parens, unused_assignments, unreachable_code, unused_braces)]
